@@ -97,6 +97,11 @@ def r_unsafe(F, R):
                     kind = st["rv"]["kind"]
                     if st.get("exp"):
                         continue
+                    op_ = st["rv"].get("op") or {}
+                    pp_ = (op_.get("place") or {}).get("p") or []
+                    if op_.get("k") in ("copy", "move") and pp_ and any(e.get("adt") == "std::boxed::Box" for e in pp_) and \
+                            str(pp_[-1].get("ty", "")).replace(" ", "") in ("std::ptr::NonNull<str>", "core::ptr::NonNull<str>"):
+                        continue  # the lowering of `*boxed_str`: the Box's own pointer, already a pointer to str
                     if (ty.endswith(" str") or ty.endswith("&str") or ty == "str"
                             or "std::string::String" == ty) and \
                             ("Transmute" in kind or "PtrToPtr" in kind):
@@ -112,6 +117,11 @@ def r_unsafe(F, R):
         if u["what"] == "block" and u["owner_path"].endswith("StringRegion<R> as Region>::index"):
             n_anchor += 1
             R.check("R-UNSAFE", u["owner_path"], True, construct="unsafe block (anchor)",
+                    where="%s:%s" % (u["span"]["file"], u["span"]["line"]), nontrivial=True)
+        elif u["what"] == "block" and any(private_helper_of_anchor(F, hb) for hb in F.by_path.get(u["owner_path"], [])):
+            # the anchor's unsafe block lives in a private helper that only the anchor calls
+            n_anchor += 1
+            R.check("R-UNSAFE", u["owner_path"], True, construct="unsafe block (in a private helper of the anchor)",
                     where="%s:%s" % (u["span"]["file"], u["span"]["line"]), nontrivial=True)
         else:
             # not a violation by itself (the property is about str construction), but not analysed
@@ -191,6 +201,8 @@ def r_strwrite(F, R, cat=None):
                     continue
                 if e.cls in ("access", "adaptor", "measure"):
                     continue
+                if e.tag[1] in ("shrink_to_fit", "shrink_to"):
+                    continue  # changes the capacity only: the stored bytes are untouched
                 if allowed is None:
                     ok = e.cls in ("read",)
                     R.check("R-STRWRITE", b.label(), ok,
@@ -223,6 +235,15 @@ def r_strwrite(F, R, cat=None):
             for (r, p) in ctx.org.local(0):
                 for (c, (r2, p2)) in base_places(ctx, (r, p)):
                     if c is ctx and r2 == ("arg", 1) and p2[:1] == ("f:inner",):
+                        if not b.d.get("vis_pub"):
+                            # a crate-private accessor (private fn, or a method of a private trait):
+                            # nothing outside the crate can call it; what its callers inside the
+                            # crate write through it is judged where they are inlined, otherwise not
+                            if F.only_inlined(b):
+                                continue
+                            R.undecided_site("R-STRWRITE", b.label(), "crate-private accessor returning &mut inner; its in-crate "
+                                             "callers could not all be inlined, what they write through it is not decided")
+                            continue
                         R.check("R-STRWRITE", b.label(), False, construct="returns &mut inner",
                                 where=b.where(),
                                 detail="hands out a mutable reference to the byte region")
@@ -238,14 +259,23 @@ def r_strwrite(F, R, cat=None):
             t = nobb(t)
             if t == ("place", b.key, ("arg", 2), ()):
                 why.append("argument bytes")
-            elif t[0] == "call" and t[1] == ("BytesMap", "get") and tuple(t[3]) in ((), ("v:Some", "f:0")):
-                why.append("whole BytesMap entry")
+            elif t[0] == "call" and t[1] == ("BytesMap", "get") and (tuple(t[3]) in ((), ("v:Some", "f:0")) or (
+                    len(t[3]) == 2 and t[3][0].startswith("v:") and t[3][1] == "f:0")):
+                why.append("whole BytesMap entry")  # the payload of whatever the lookup's result type calls its occupied variant
             elif t[0] == "call" and t[1][0] == "Option" and t[3] and \
                     any(nd[0] == "call" and nd[1] == ("BytesMap", "get") for nd in walk_nodes(t)):
                 why.append("whole BytesMap entry")
             else:
                 ok = False
                 why.append(show(t)[:100])
+        if not ok:
+            from r_codec import _table_lookup_present
+            if not _table_lookup_present(F, b):
+                # the table lookup was written out in decode itself: which byte ranges it can
+                # return is then a matter of offset arithmetic
+                R.undecided_site("R-STRWRITE", b.label(), "decode does not call the reader table's lookup (inlined or replaced): "
+                                 "that it returns whole entries is not decided")
+                continue
         R.check("R-STRWRITE", b.label(), ok and bool(why), construct="decode returns argument or whole entry",
                 where=b.where(), detail=", ".join(sorted(set(why))))
 
